@@ -2,7 +2,11 @@
 1. TLC: Chain.tla (every tree shape, difficulty assignment, arrival order within the bounds).
 2. Direction A: histories enumerated by TLC (ChainGen.tla) replayed on core.BlockChain.
 3. Direction B: seeded random trees / histories / corruptions on core.BlockChain.
-4. TLC: ChainTrace.tla evaluates the C01 predicates of ChainProps on every recorded observation."""
+4. TLC: ChainTrace.tla evaluates the C01 predicates of ChainProps on every recorded observation.
+5. Block building: BlockBuild.tla (builder with snapshot/revert vs importer; the config without the revert must fail); the real
+   miner worker assembles blocks from seeded pending sets on a real pool and chain, an independent chain imports them;
+   MinerTrace.tla compares what builder and importer computed."""
+import os, re, json
 from lib import vlib
 from checks import chainfam
 
@@ -10,6 +14,8 @@ def run(ctx):
     q = ctx.quick
     if not ctx.replay:
         vlib.model_check(ctx, chainfam.FAM, "ChainMC.tla", "Chain_forkchoice.cfg", timeout=3000, heap="16g", deadlock=False)
+        vlib.model_check(ctx, chainfam.FAM, "BlockBuild.tla", "BlockBuild_ok.cfg", timeout=1500)
+        vlib.model_check(ctx, chainfam.FAM, "BlockBuild.tla", "BlockBuild_norevert.cfg", expect_violation="SelfBuiltAccepted", timeout=600)
         ctx.exhaustive = True
     scripts, total, used = chainfam.gen_scripts(ctx, "ChainGen_small.cfg", 250 if q else 100000)
     t1 = chainfam.drive_scripts(ctx, scripts, "small")
@@ -21,9 +27,28 @@ def run(ctx):
         chainfam.judge(ctx, "C01", t2, used2, "import determinism / rejection (TLC-simulated histories)")
     trace, nt, nev = chainfam.drive(ctx, 6 if q else 40, 6 if q else 10, 1 if q else 4)
     chainfam.judge(ctx, "C01", trace, nt, "import determinism / rejection")
+    # block building
+    mtrace = os.path.join(ctx.work, "miner.ndjson")
+    rc, out = vlib.go_test(ctx, "opt/miner", "TestVerifSelfBuilt$", env={"VERIF_OUT": mtrace, "VERIF_SEQS": 8 if q else 64, "VERIF_BLOCKS": 6 if q else 12}, timeout=3000)
+    m = re.search(r"VERIF-STAT sequences=(\d+) events=(\d+)", out)
+    if rc != 0 or not m:
+        raise vlib.Infra("miner driver failed (rc=%d):\n%s" % (rc, out[-3000:]))
+    v = vlib.validate_trace(ctx, chainfam.FAM, "MinerTrace.tla", "MinerTrace.cfg", mtrace, name="trace_miner")
+    mevs = vlib.read_ndjson(mtrace)
+    ctx.evaluations += len(mevs)
+    for e in mevs:
+        ctx.signatures.add(("selfbuilt", e["offered"] - e["included"], min(e["included"], 5), e["built"]["logs"] > 0, e["importErr"][:20]))
+    if v.accepted:
+        ctx.traces_validated += int(m.group(1))
+    else:
+        ev = mevs[v.line - 1] if v.line and v.line <= len(mevs) else {}
+        meta = os.path.join(ctx.work, "meta.json")
+        json.dump({"seed": ctx.seed, "tier": ctx.tier, "line": v.line, "invariant": v.violated}, open(meta, "w"))
+        ctx.violation("MinerTrace invariant %s false at trace line %s: %s" % (v.violated, v.line, json.dumps(ev)[:700]), ctx.save_replay("miner", [mtrace, meta]))
     ctx.notes["tlc_histories_total"] = total
     ctx.notes["tlc_histories_replayed"] = used
-    ctx.assumptions = ["block difficulties are read from the generated headers; TD truth = sum along ancestry (BigNat limbs)",
+    ctx.assumptions = ["block building: the worker is driven through commitNewWork() with mining switched on and no sealing agent; the assembled block is taken from worker.current and imported with InsertChain by a second chain built from the same genesis",
+                       "block difficulties are read from the generated headers; TD truth = sum along ancestry (BigNat limbs)",
                        "fake PoW engine (seal checks are C14)", "blocks produced by core.GenerateChain are valid by construction"]
     vlib.write_evidence(ctx, rule="TLC: Chain.tla over every tree shape x difficulties 1..2 x every arrival order within the config bounds; "
         "direction A: histories of ChainGen.tla (all of them in the thorough tier, a seeded sample in quick) replayed on core.BlockChain; "
